@@ -11,6 +11,9 @@ pub fn replay(prop: &'static str, engine: &str, case: &Value, path: &str) -> i32
         "probes" => crate::probes::replay_case(case),
         "conversions" => crate::grid::conversion_determinism(crate::plan::Tier::Thorough).violations.into_iter().map(|e| e.finding).collect(),
         "churn" => crate::grid::churn(crate::plan::Tier::Quick).violations.into_iter().map(|e| e.finding).collect(),
+        "capacity-sweep" => crate::sweeps::capacity_sweep(crate::plan::Tier::Thorough).violations.into_iter().map(|e| e.finding).collect(),
+        "quota-sweep" => crate::sweeps::quota_sweep(crate::plan::Tier::Thorough).violations.into_iter().map(|e| e.finding).collect(),
+        "callback-unwind" => crate::faults::run_callback_consistency(crate::plan::Tier::Quick).violations.into_iter().map(|e| e.finding).collect(),
         "putresult" => crate::grid::put_result_structural().violations.into_iter().map(|e| e.finding).collect(),
         other => {
             eprintln!("no replay support for engine {:?}", other);
